@@ -431,9 +431,20 @@ def r43(ctx, R, rule='R4.3'):
 
 
 def s_closures(ctx, impl):
+    """The handler's local closures, plus the transaction-scoped functions
+    of the handler layer it (or one of those closures) calls directly: a
+    write closure moved to module level, with the captured values passed as
+    arguments, is the same transaction root."""
     out = []
     for fs in impl.nested.values():
         out.extend(fs)
+    for g in [impl] + list(out):
+        for s_ in ctx.cg.calls_in(g):
+            for c in s_.callees:
+                if c.parent is None and c not in out and c is not impl and \
+                        c.module.name.startswith('placement.handlers') and \
+                        ctx.effects.scope_kind(c):
+                    out.append(c)
     return out
 
 
